@@ -1,11 +1,30 @@
 (* C14 — Workers: exactly-once execution, bounded concurrency, no starvation.
-   Statements only; every proof is `exact` of a lemma of Proofs/Workers.v.
+   Statements only; every proof is `exact` of a lemma of Proofs/Workers.v, Proofs/WorkersMore.v (delivery to the right
+   caller, maxreq, FIFO, enabled worker, idle at Wait) or Proofs/WorkersNested.v (work functions that call back).
    Quantifier: every program (any number of caller threads, each with any script of Call k / Wait / Count, any count
    arguments) and every schedule (any interleaving of callers with workers being spawned, dequeuing, starting and
-   finishing functions, exiting); a disabled pick is a stutter.  `Faithful` is the protocol as coded in workers.go. *)
+   finishing functions, exiting); a disabled pick is a stutter.  `Faithful` is the protocol as coded in workers.go.
+
+   ASSUMPTION ON THE WORK FUNCTIONS (the "programs" the property quantifies over).  In Model/Workers.v the function
+   handed to Call is opaque to the pool: it is the two worker steps "start" and "end", i.e.
+     (A1) it TERMINATES (the end step is always enabled): the liveness theorems (measure, terminal states, no starvation)
+          are conditional on this; a function that never returns occupies its worker for ever, by design;
+     (A2) it does NOT call w.Call / w.Wait on the SAME Workers from inside the function.
+   (A2) is a real restriction, not a modelling convenience: C14_nested_call_deadlocks_refuted below shows, on the same
+   protocol extended with functions that call back (Model/WorkersNested.v), that `w.Call(1, f)` with f calling
+   `w.Call(1, g)` deadlocks under EVERY schedule -- the only worker is the one executing f, the nested Call finds
+   count = 1 and spawns nobody, g stays queued for ever, the outer Call never returns (confirmed on the implementation:
+   a go test with a 3 s timeout, count=1 target=1 len(queue)=1).  In the deadlocked state one function is executing =
+   count = the largest count requested, so executing g would violate the concurrency bound: for re-entrant functions the
+   bound clause and the no-starvation clause of C14 cannot both hold, for ANY implementation.  The documentation of
+   Workers ("up to x number of operations happening at any given point in time", Call: "will call value synchronously,
+   with up to count concurrency (with other concurrent calls)") neither allows nor forbids re-entrant use; the
+   no-starvation clause of C14 is therefore stated and proved for programs satisfying (A1) and (A2) only.
+   (Likewise a function calling w.Wait() on its own pool waits for itself: count >= 1 while it runs.) *)
 From Coq Require Import List Arith Bool.
 From BB.Model Require Import Workers.
-From BB.Proofs Require Workers.
+From BB.Model Require WorkersNested.
+From BB.Proofs Require Workers WorkersMore WorkersNested.
 Import ListNotations.
 
 (* Each call's function has started at most once; a reply exists / the Call has returned only after exactly one complete
@@ -91,6 +110,135 @@ Theorem C14_step_characterisation : forall (s : st) (x : pick) (s' : st),
   step Faithful s x = Some s' <-> Proofs.Workers.Step s x s'.
 Proof. exact Proofs.Workers.step_iff. Qed.
 Print Assumptions C14_step_characterisation.
+
+(* ---- the statement of C14 re-read clause by clause: the parts not covered above (Proofs/WorkersMore.v) ---- *)
+
+(* "Each Workers.Call runs its function exactly once and returns exactly that function's result" -- to ITS caller:
+   (a) what a caller finds at position p of its output as the result of a Call is the value produced by the function of
+       the call that this caller made as its p-th operation (v = i, cown = t, cidx = p), which ran exactly once;
+   (b) every call that has returned is in its owner's output at the position of that Call, with its own value;
+   (c) no call is delivered twice or to two callers.
+   For every number of concurrent Calls, every count arguments, every schedule. *)
+Theorem C14_delivered_to_own_caller : forall (progs : list (list cop)) (sched : list pick),
+  let s := run Faithful (init progs) sched in
+  (forall t c p i v, nth_error (callers s) t = Some c -> nth_error (outs c) p = Some (RCall i v) ->
+     v = i /\ exists cl, nth_error (calls s) i = Some cl /\ cown cl = t /\ cidx cl = p /\ cs cl = SReturned i /\
+                         cx cl = 1 /\ ce cl = 1) /\
+  (forall i cl v, nth_error (calls s) i = Some cl -> cs cl = SReturned v ->
+     v = i /\ exists c, nth_error (callers s) (cown cl) = Some c /\ nth_error (outs c) (cidx cl) = Some (RCall i i)) /\
+  (forall t c p t' c' p' i v v', nth_error (callers s) t = Some c -> nth_error (outs c) p = Some (RCall i v) ->
+     nth_error (callers s) t' = Some c' -> nth_error (outs c') p' = Some (RCall i v') -> t = t' /\ p = p').
+Proof. exact Proofs.WorkersMore.delivered. Qed.
+Print Assumptions C14_delivered_to_own_caller.
+
+(* ... and when nothing can move any more, EVERY call ever made has run its function exactly once and its own result is
+   in its owner's output at the position of that Call operation (with C14_extends_to_terminal / C14_steps_bounded: every
+   maximal run ends so). *)
+Theorem C14_terminal_all_delivered : forall (progs : list (list cop)) (sched : list pick),
+  let s := run Faithful (init progs) sched in
+  Proofs.Workers.terminal Faithful s ->
+  forall i cl, nth_error (calls s) i = Some cl ->
+    cs cl = SReturned i /\ cx cl = 1 /\ ce cl = 1 /\
+    exists c, nth_error (callers s) (cown cl) = Some c /\ nth_error (outs c) (cidx cl) = Some (RCall i i) /\
+              script c = [] /\ pc c = PReady.
+Proof. exact Proofs.WorkersMore.terminal_all_delivered. Qed.
+Print Assumptions C14_terminal_all_delivered.
+
+(* "the largest count any caller has requested so far": the ghost `maxreq` of C14_bound is 0 initially and changes only
+   when a caller invokes Call with a positive count k, to max(maxreq, k). *)
+Theorem C14_maxreq_is_largest_request :
+  (forall progs, maxreq (init progs) = 0) /\
+  (forall s x s', step Faithful s x = Some s' ->
+     (maxreq s' = maxreq s /\ is_call s x = false) \/
+     (exists t c k rest, x = PC t /\ nth_error (callers s) t = Some c /\ pc c = PReady /\ script c = CCall k :: rest /\
+        ((k = 0 /\ maxreq s' = maxreq s) \/ (0 < k /\ maxreq s' = Nat.max (maxreq s) k /\ target s' = k)))).
+Proof. exact Proofs.WorkersMore.maxreq_characterisation. Qed.
+Print Assumptions C14_maxreq_is_largest_request.
+
+(* "No call is starved": (a) a live worker is never blocked (from ANY state); (b) hence in every reachable state with a
+   queued function some worker step is enabled; (c) the queue is FIFO in the order the Calls were made -- a worker
+   always takes the OLDEST queued call, no queued call is overtaken. *)
+Theorem C14_worker_never_blocked : forall (s : st) (w : nat) (x : wk),
+  nth_error (ws s) w = Some x -> live x = true -> step Faithful s (PW w) <> None.
+Proof. exact Proofs.WorkersMore.worker_never_blocked. Qed.
+Print Assumptions C14_worker_never_blocked.
+
+Theorem C14_queue_has_enabled_worker : forall (progs : list (list cop)) (sched : list pick),
+  let s := run Faithful (init progs) sched in
+  queue s <> [] -> exists w, step Faithful s (PW w) <> None.
+Proof. exact Proofs.WorkersMore.queue_has_enabled_worker. Qed.
+Print Assumptions C14_queue_has_enabled_worker.
+
+Theorem C14_fifo : forall (progs : list (list cop)) (sched : list pick),
+  let s := run Faithful (init progs) sched in
+  forall i rest, queue s = i :: rest -> Forall (fun j => i < j) rest /\ i < length (calls s).
+Proof. exact Proofs.WorkersMore.fifo. Qed.
+Print Assumptions C14_fifo.
+
+(* "Wait returns only when no worker is running": a pending Wait is blocked exactly while count <> 0, and at the moment it
+   returns count = 0, NO work is queued, no worker is live, and every call made so far has run exactly once with its reply
+   in its channel or already returned. *)
+Theorem C14_wait_blocked_iff : forall (s : st) (t : nat) (c : caller),
+  nth_error (callers s) t = Some c -> pc c = PWaiting -> (step Faithful s (PC t) = None <-> count s <> 0).
+Proof. exact Proofs.WorkersMore.wait_blocked_iff. Qed.
+Print Assumptions C14_wait_blocked_iff.
+
+Theorem C14_wait_returns_idle : forall (progs : list (list cop)) (sched : list pick) (t : nat) (c : caller) (s' : st),
+  let s := run Faithful (init progs) sched in
+  nth_error (callers s) t = Some c -> pc c = PWaiting -> step Faithful s (PC t) = Some s' ->
+  count s = 0 /\ queue s = [] /\ countp live (ws s) = 0 /\ countp running (ws s) = 0 /\
+  (forall i cl, nth_error (calls s) i = Some cl ->
+     (exists v, cs cl = SReplied v \/ cs cl = SReturned v) /\ cx cl = 1 /\ ce cl = 1) /\
+  count s' = 0 /\ queue s' = [].
+Proof. exact Proofs.WorkersMore.wait_returns_idle. Qed.
+Print Assumptions C14_wait_returns_idle.
+
+(* ---- outside assumption (A2): a work function that calls back into its own pool (Model/WorkersNested.v) ---- *)
+(* w.Call(1, f), f calling w.Call(1, g): a reachable state in which NOTHING can move (nstep s x = None for every x), the
+   outer caller is blocked inside Call, g is queued and has never been started, count = target = maxreq = 1 and the one
+   worker is inside f's nested Call; exactly one function is executing (= the bound). *)
+Theorem C14_nested_call_deadlocks_refuted :
+  exists sched, let s := WorkersNested.nrun (WorkersNested.ninit Proofs.WorkersNested.nest1_progs) sched in
+    Proofs.WorkersNested.deadlocked s /\
+    WorkersNested.nqueue s = [1] /\ WorkersNested.ncount s = 1 /\ WorkersNested.ntarget s = 1 /\
+    WorkersNested.nmaxreq s = 1 /\ WorkersNested.nws s = [WorkersNested.NNest 0 1] /\
+    WorkersNested.ncallers s = [WorkersNested.NBlocked 0] /\
+    map WorkersNested.nstat (WorkersNested.ncalls s) = [WorkersNested.NRunning; WorkersNested.NQueued] /\
+    map WorkersNested.nstarts (WorkersNested.ncalls s) = [1; 0] /\
+    WorkersNested.ncountp WorkersNested.nexecuting (WorkersNested.nws s) = 1.
+Proof. exact Proofs.WorkersNested.nested_call_deadlocks. Qed.
+Print Assumptions C14_nested_call_deadlocks_refuted.
+
+(* ... and not only on that schedule: under EVERY schedule of that program the outer Call never returns and g is never
+   started. *)
+Theorem C14_nested_call_never_returns_refuted : forall sched,
+  let s := WorkersNested.nrun (WorkersNested.ninit Proofs.WorkersNested.nest1_progs) sched in
+  (forall c, In c (WorkersNested.ncallers s) -> c <> WorkersNested.NDone) /\
+  (forall c, nth_error (WorkersNested.ncalls s) 1 = Some c ->
+     WorkersNested.nstarts c = 0 /\ WorkersNested.nstat c = WorkersNested.NQueued) /\
+  WorkersNested.ncountp WorkersNested.nexecuting (WorkersNested.nws s) <= 1.
+Proof. exact Proofs.WorkersNested.nested_call_never_returns. Qed.
+Print Assumptions C14_nested_call_never_returns_refuted.
+
+(* k = 2: two callers Call(2, f), each f nesting Call(2, g): both workers blocked in the nested Call, two functions queued *)
+Theorem C14_nested_call_deadlocks_2_refuted :
+  exists sched, let s := WorkersNested.nrun (WorkersNested.ninit Proofs.WorkersNested.nest2_progs) sched in
+    Proofs.WorkersNested.deadlocked s /\ WorkersNested.nqueue s = [2; 3] /\ WorkersNested.ncount s = 2 /\
+    WorkersNested.nmaxreq s = 2 /\ WorkersNested.nws s = [WorkersNested.NNest 0 2; WorkersNested.NNest 1 3] /\
+    WorkersNested.ncountp WorkersNested.nexecuting (WorkersNested.nws s) = 2.
+Proof. exact Proofs.WorkersNested.nested_call_deadlocks_2. Qed.
+Print Assumptions C14_nested_call_deadlocks_2_refuted.
+
+(* contrast: a nested Call that asks for MORE workers than are busy (Call(2) inside Call(1)) completes and the pool drains;
+   so does the same program without nesting: the nested model agrees with Model/Workers.v where (A2) holds. *)
+Theorem C14_nested_larger_count_completes :
+  let s := WorkersNested.nrun_fuel 40 (WorkersNested.ninit [(1, WorkersNested.Nest 2 WorkersNested.Leaf)]) in
+  Proofs.WorkersNested.nterminal s /\ WorkersNested.ncallers s = [WorkersNested.NDone] /\ WorkersNested.nqueue s = [] /\
+  WorkersNested.ncount s = 0 /\
+  map WorkersNested.nstat (WorkersNested.ncalls s) = [WorkersNested.NReturned; WorkersNested.NReturned] /\
+  map WorkersNested.nstarts (WorkersNested.ncalls s) = [1; 1].
+Proof. exact Proofs.WorkersNested.nested_larger_count_completes. Qed.
+Print Assumptions C14_nested_larger_count_completes.
 
 (* ---- the theorems are sensitive to the code: four one-token mutations, refuted on the SAME step function ---- *)
 (* exit test `count >= target`: a terminal state with a queued call, no worker, the caller blocked forever *)
